@@ -106,3 +106,31 @@ package tsdb
 //@   ensures[a_timestamp_is_written_to_the_family_whose_range_contains_it] result1 == nil ==> (result0 != nil && famStart(result0) <= timestamp && timestamp <= famEnd(result0))
 //@   ensures[the_cache_keeps_its_shape] famMapOK(s)
 //@ end
+
+//@ # ---- flush of a data family (C07): the sequences stored with the flushed data are captured in the critical section in
+//@ # which the memory database is switched (a replicator that applies an entry in between would have it committed as
+//@ # flushed although its rows went to the next memory database) - lock discipline of the family mutex -------------
+//@ lock dataFamily.mutex protects seq immutableSeq immutableMemDB mutableMemDB persistSeq
+//@ func github.com/lindb/lindb/tsdb/memdb.MemoryDatabase.MarkReadOnly
+//@   modifies nothing
+//@ end
+//@ func github.com/lindb/lindb/tsdb/memdb.MemoryDatabase.NumOfSeries
+//@   modifies nothing
+//@ end
+//@ func github.com/lindb/lindb/tsdb/memdb.MemoryDatabase.MemSize
+//@   modifies nothing
+//@ end
+//@ func dataFamily.flushMemoryDatabase
+//@   assume
+//@   note the flush itself (memory database -> kv flusher, commit of the sequences, acknowledgement callbacks) is not under contract
+//@   modifies *
+//@   ensures f.persistSeq == old(f.persistSeq) && f.seq == old(f.seq)
+//@ end
+//@ func dataFamily.Flush
+//@   prop C07
+//@   requires f.seq != nil && f.persistSeq != nil && f.logger != nil && !locked(f.mutex)
+//@   modifies *
+//@   ensures[the_family_lock_is_released] !locked(f.mutex)
+//@   loop 1 invariant locked(f.mutex) && f.persistSeq != nil && f.seq != nil
+//@   loop 2 invariant locked(f.mutex) && f.persistSeq != nil
+//@ end
